@@ -178,7 +178,46 @@ Section Proofs.
       destruct I4 as [[_ I4]|[c [s [I4 _]]]]; [congruence | discriminate I4].
   Qed.
 
-  Lemma Inv_step ccd st o : Inv st -> Inv (fst (step_gen C ccd st o)).
+  (* ---- the callback of rehashPassword ---- *)
+  Lemma cmp_ok_sound st h p : Inv st -> cmp_ok C st h p = true -> verify C h p = true.
+  Proof.
+    intros [_ _ I3 _] H. unfold cmp_ok in H. apply orb_true_iff in H. destruct H as [H|H]; [|exact H].
+    apply kmem_in in H. destruct (I3 _ _ H) as [q [Hd Hq]]. apply (digest_inj C OK) in Hd. subst; assumption.
+  Qed.
+
+  Lemma cmp_cache_in st h p ev x :
+    In x (cmp_cache C st h p ev) -> In x (cache st) \/ (x = (digest C p, h) /\ verify C h p = true).
+  Proof.
+    unfold cmp_cache. intros H. repeat dm; auto.
+    apply cache_put_in in H. destruct H as [H|H]; auto.
+  Qed.
+
+  Lemma rehash_cache_in rcp st usr p c ev d h :
+    Inv st -> In (d, h) (rehash_cache C rcp st usr p c ev) -> exists q, d = digest C q /\ verify C h q = true.
+  Proof.
+    intros I H. pose proof I as [_ _ I3 _]. unfold rehash_cache in H. repeat dm; eauto.
+    apply cmp_cache_in in H. destruct H as [H|[H Hv]]; [eauto|]. inv H. eauto.
+  Qed.
+
+  Lemma rehash_go_true rcp st usr p c :
+    Inv st -> rehash_go C rcp st usr p c = true ->
+    exists h, u_hash usr = Some h /\ cost C h <> c /\ too_long C p = false /\ (rcp = true -> verify C h p = true).
+  Proof.
+    intros I H. unfold rehash_go in H. destruct (u_hash usr) as [h|]; [|discriminate H].
+    apply andb_true_iff in H. destruct H as [H H3]. apply andb_true_iff in H. destruct H as [H1 H2].
+    exists h. keq. repeat split; auto.
+    intros ->. cbn in H2. apply (cmp_ok_sound st); assumption.
+  Qed.
+
+  Lemma Inv_with_cache st c :
+    Inv st -> (forall d h, In (d, h) c -> exists q, d = digest C q /\ verify C h q = true) -> Inv (with_cache st c).
+  Proof. intros [I1 I2 I3 I4] H. split; acc; auto. Qed.
+  Lemma Inv_with_pending st ps : Inv st -> Inv (with_pending st ps).
+  Proof. intros [I1 I2 I3 I4]. split; acc; auto. Qed.
+  Lemma Inv_rehash_cache rcp st usr p c ev : Inv st -> Inv (with_cache st (rehash_cache C rcp st usr p c ev)).
+  Proof. intros I. apply Inv_with_cache; [exact I|]. intros d h. apply rehash_cache_in; exact I. Qed.
+
+  Lemma Inv_step ccd rcp st o : Inv st -> Inv (fst (step_gen C ccd rcp st o)).
   Proof.
     intros I. pose proof I as [I1 I2 I3 I4].
     assert (U1 : forall u usr, alookup u (users st) = Some usr -> u_uuid usr < next_uuid st + 1)
@@ -186,13 +225,15 @@ Section Proofs.
     assert (U2 : forall sid s, alookup sid (sessions st) = Some s -> s_uuid s < next_uuid st + 1)
       by (intros sid s H; specialize (I2 _ _ H); lia).
     destruct o; unfold step_gen, consume.
-    (* the two password logins: the check keeps the invariant, registering a pending re-hash touches nothing of it *)
+    (* the two password logins: the check keeps the invariant, the callback's comparison caches only verified
+       pairs, registering a pending re-hash touches nothing of it *)
     9: { destruct (pass_check C st u p ev) as [st1 w] eqn:E. cbn [fst].
          change st1 with (fst (st1, w)). rewrite <- E. apply pass_check_Inv; exact I. }
     9: { pose proof (pass_check_Inv st u p ev I) as I'.
          destruct (pass_check C st u p ev) as [st1 w] eqn:E. cbn [fst] in *.
-         repeat dm; try exact I'; destruct I' as [J1 J2 J3 J4]; split; acc; auto. }
+         repeat dm; try exact I'; try apply Inv_with_pending; apply Inv_rehash_cache; exact I'. }
     all: repeat dm; cbn [fst]; try (split; assumption);
+      try (apply Inv_with_pending, Inv_rehash_cache; exact I);
       split; acc; intros; look; repeat dm; inv_some; acc; eauto using new_hash_ok; try lia.
     (* SetDisabled / InvalidateSessions keep hash and ghost password *)
     all: try match goal with
@@ -208,21 +249,21 @@ Section Proofs.
          end.
   Qed.
 
-  Lemma run_snoc ccd (st : state) ops o :
-    run_gen C ccd st (ops ++ [o]) = fst (step_gen C ccd (run_gen C ccd st ops) o).
+  Lemma run_snoc ccd rcp (st : state) ops o :
+    run_gen C ccd rcp st (ops ++ [o]) = fst (step_gen C ccd rcp (run_gen C ccd rcp st ops) o).
   Proof. unfold run_gen. rewrite fold_left_app. reflexivity. Qed.
 
-  Lemma run_app ccd (st : state) ops1 ops2 :
-    run_gen C ccd st (ops1 ++ ops2) = run_gen C ccd (run_gen C ccd st ops1) ops2.
+  Lemma run_app ccd rcp (st : state) ops1 ops2 :
+    run_gen C ccd rcp st (ops1 ++ ops2) = run_gen C ccd rcp (run_gen C ccd rcp st ops1) ops2.
   Proof. unfold run_gen. apply fold_left_app. Qed.
 
-  Lemma Inv_run ccd ops : forall st, Inv st -> Inv (run_gen C ccd st ops).
+  Lemma Inv_run ccd rcp ops : forall st, Inv st -> Inv (run_gen C ccd rcp st ops).
   Proof.
     induction ops as [|o ops IH]; intros st H; [exact H|].
     cbn [run_gen fold_left]. apply IH. apply Inv_step. exact H.
   Qed.
 
-  Lemma Inv_reach ccd capacity ops : Inv (run_gen C ccd (init C capacity) ops).
+  Lemma Inv_reach ccd rcp capacity ops : Inv (run_gen C ccd rcp (init C capacity) ops).
   Proof. apply Inv_run, Inv_init. Qed.
 
   (* ================= password path ================= *)
@@ -230,8 +271,8 @@ Section Proofs.
   Definition password_login (o : op) (u q : N) : Prop :=
     (exists ev, o = AuthPassword u q ev) \/ (exists a ev c, o = LoginRehash a u q ev c).
 
-  Lemma password_auth_sound ccd st o u q w :
-    Inv st -> password_login o u q -> authed (snd (step_gen C ccd st o)) = Some w ->
+  Lemma password_auth_sound ccd rcp st o u q w :
+    Inv st -> password_login o u q -> authed (snd (step_gen C ccd rcp st o)) = Some w ->
     w = u /\ exists usr, alookup u (users st) = Some usr /\ u_disabled usr = false /\
       match u_hash usr with Some h => verify C h q = true | None => q = 0 end /\
       bkey C q = bkey C (u_pw usr).
@@ -250,10 +291,10 @@ Section Proofs.
   Qed.
 
   (* ... and a warm cache decides exactly as an empty one *)
-  Lemma cache_transparent ccd st u q ev ev' :
+  Lemma cache_transparent ccd rcp st u q ev ev' :
     Inv st ->
-    authed (snd (step_gen C ccd st (AuthPassword u q ev))) =
-    authed (snd (step_gen C ccd (with_cache st []) (AuthPassword u q ev'))).
+    authed (snd (step_gen C ccd rcp st (AuthPassword u q ev))) =
+    authed (snd (step_gen C ccd rcp (with_cache st []) (AuthPassword u q ev'))).
   Proof.
     intros I. unfold step_gen.
     assert (E : snd (pass_check C st u q ev) = snd (pass_check C (with_cache st []) u q ev')).
@@ -284,8 +325,8 @@ Section Proofs.
     intros ->. cbn in *. assumption.
   Qed.
 
-  Lemma session_auth_sound ccd st sid o w :
-    presents o sid -> authed (snd (step_gen C ccd st o)) = Some w ->
+  Lemma session_auth_sound ccd rcp st sid o w :
+    presents o sid -> authed (snd (step_gen C ccd rcp st o)) = Some w ->
     exists s usr, alookup sid (sessions st) = Some s /\ now st < s_expires s /\ s_user s = w /\
       alookup w (users st) = Some usr /\ s_uuid s = u_uuid usr /\
       (ccd = true -> authenticates o sid -> u_disabled usr = false).
@@ -321,16 +362,16 @@ Section Proofs.
     users st' = users st -> sessions st' = sessions st -> now st' = now st -> dead st sid -> dead st' sid.
   Proof. unfold dead. intros -> -> ->. auto. Qed.
 
-  Lemma dead_no_auth ccd st sid o :
-    dead st sid -> presents o sid -> authed (snd (step_gen C ccd st o)) = None.
+  Lemma dead_no_auth ccd rcp st sid o :
+    dead st sid -> presents o sid -> authed (snd (step_gen C ccd rcp st o)) = None.
   Proof.
-    intros D P. destruct (authed (snd (step_gen C ccd st o))) as [w|] eqn:E; [|reflexivity].
-    destruct (session_auth_sound _ _ _ _ _ P E) as [s [usr [Es [Hl [Hu [Eu [Euu _]]]]]]].
+    intros D P. destruct (authed (snd (step_gen C ccd rcp st o))) as [w|] eqn:E; [|reflexivity].
+    destruct (session_auth_sound _ _ _ _ _ _ P E) as [s [usr [Es [Hl [Hu [Eu [Euu _]]]]]]].
     destruct (D _ Es) as [D1|D2]; [lia|]. subst w. specialize (D2 _ Eu). lia.
   Qed.
 
-  Lemma dead_step ccd st sid o :
-    Inv st -> dead st sid -> not_create sid o -> dead (fst (step_gen C ccd st o)) sid.
+  Lemma dead_step ccd rcp st sid o :
+    Inv st -> dead st sid -> not_create sid o -> dead (fst (step_gen C ccd rcp st o)) sid.
   Proof.
     intros [I1 I2 _ _] D NC.
     destruct o; unfold step_gen, consume.
@@ -339,7 +380,7 @@ Section Proofs.
     9: { destruct (pass_check_frame st u p ev) as [E1 [E2 [E3 _]]].
          destruct (pass_check C st u p ev) as [st1 w]; cbn [fst] in *.
          repeat dm; apply (dead_ext st); acc; auto. }
-    all: repeat dm; cbn [fst]; try exact D;
+    all: repeat dm; cbn [fst]; try exact D; try (apply (dead_ext st); acc; auto; fail);
       unfold dead in *; acc; intros s0 Hs0; look.
     (* user operations: the sessions are untouched, a rewritten user gets the next uuid or keeps its own *)
     all: try (destruct (D _ Hs0) as [D1|D2]; [left; exact D1|right];
@@ -360,9 +401,9 @@ Section Proofs.
           end.
   Qed.
 
-  Lemma dead_forever ccd sid ops : forall st,
+  Lemma dead_forever ccd rcp sid ops : forall st,
     Inv st -> dead st sid -> no_recreate sid ops ->
-    dead (run_gen C ccd st ops) sid.
+    dead (run_gen C ccd rcp st ops) sid.
   Proof.
     induction ops as [|o ops IH]; intros st I D NR; [exact D|].
     inv NR. cbn [run_gen fold_left]. apply IH; auto using Inv_step, dead_step.
@@ -370,11 +411,11 @@ Section Proofs.
 
   (* ---- what kills a session ---- *)
   (* a successful password change, or "delete all sessions of the user" *)
-  Lemma epoch_change_kills ccd st sid s o :
+  Lemma epoch_change_kills ccd rcp st sid s o :
     Inv st -> alookup sid (sessions st) = Some s ->
     (exists p salt c, o = SetPassword (s_user s) p salt c) \/ o = InvalidateSessions (s_user s) ->
-    snd (step_gen C ccd st o) = ODone ->
-    dead (fst (step_gen C ccd st o)) sid.
+    snd (step_gen C ccd rcp st o) = ODone ->
+    dead (fst (step_gen C ccd rcp st o)) sid.
   Proof.
     intros [I1 I2 _ _] Es Ho Hd.
     destruct Ho as [ [p [salt [c -> ] ] ] | -> ]; unfold step_gen in *; repeat dm; cbn [snd] in Hd; try discriminate Hd;
@@ -382,36 +423,36 @@ Section Proofs.
       intros usr0 Hu0; look; rewrite N.eqb_refl in Hu0; inv Hu0; acc; specialize (I2 _ _ Es); lia.
   Qed.
 
-  Lemma delete_user_kills ccd st sid s :
+  Lemma delete_user_kills ccd rcp st sid s :
     alookup sid (sessions st) = Some s ->
-    snd (step_gen C ccd st (DeleteUser (s_user s))) = ODone ->
-    dead (fst (step_gen C ccd st (DeleteUser (s_user s)))) sid.
+    snd (step_gen C ccd rcp st (DeleteUser (s_user s))) = ODone ->
+    dead (fst (step_gen C ccd rcp st (DeleteUser (s_user s)))) sid.
   Proof.
     intros Es Hd. unfold step_gen in *. repeat dm; cbn [snd] in Hd; try discriminate Hd.
     cbn [fst]; unfold dead; acc; intros s0 Hs0; rewrite Es in Hs0; inv Hs0; right.
     intros usr0 Hu0; look. rewrite N.eqb_refl in Hu0. discriminate Hu0.
   Qed.
 
-  Lemma delete_session_kills ccd st sid :
-    dead (fst (step_gen C ccd st (DeleteSession sid))) sid.
+  Lemma delete_session_kills ccd rcp st sid :
+    dead (fst (step_gen C ccd rcp st (DeleteSession sid))) sid.
   Proof.
     unfold step_gen. destruct (get_session C st sid) as [s|] eqn:Eg; cbn [fst]; unfold dead; acc; intros s0 Hs0.
     - look. rewrite N.eqb_refl in Hs0. discriminate Hs0.
     - left. unfold get_session in Eg. rewrite Hs0 in Eg. dm; [discriminate Eg|]. keq. assumption.
   Qed.
 
-  Lemma expiry_kills ccd st sid s dt :
+  Lemma expiry_kills ccd rcp st sid s dt :
     alookup sid (sessions st) = Some s -> s_expires s <= now st + dt ->
-    dead (fst (step_gen C ccd st (Advance dt))) sid.
+    dead (fst (step_gen C ccd rcp st (Advance dt))) sid.
   Proof.
     intros Es Hle. unfold step_gen; cbn [fst]; unfold dead; acc. intros s0 Hs0. rewrite Es in Hs0; inv Hs0. left; assumption.
   Qed.
 
   (* a one-time session that authenticated is gone *)
-  Lemma one_time_consumed ccd st sid s o w :
+  Lemma one_time_consumed ccd rcp st sid s o w :
     alookup sid (sessions st) = Some s -> s_onetime s = true ->
-    authenticates o sid -> authed (snd (step_gen C ccd st o)) = Some w ->
-    alookup sid (sessions (fst (step_gen C ccd st o))) = None.
+    authenticates o sid -> authed (snd (step_gen C ccd rcp st o)) = Some w ->
+    alookup sid (sessions (fst (step_gen C ccd rcp st o))) = None.
   Proof.
     intros Es Hot [ -> | -> ] H; unfold step_gen in *;
       (destruct (get_session C st sid) as [s1|] eqn:Eg; [|discriminate H]);
@@ -430,13 +471,13 @@ Section Proofs.
   Proof. intros H. unfold wants_refresh. rewrite H. apply andb_false_r. Qed.
 
   (* ---- provenance: a stored session was issued by CreateSession for that user ---- *)
-  Lemma session_provenance ccd capacity ops sid s :
-    alookup sid (sessions (run_gen C ccd (init C capacity) ops)) = Some s ->
+  Lemma session_provenance ccd rcp capacity ops sid s :
+    alookup sid (sessions (run_gen C ccd rcp (init C capacity) ops)) = Some s ->
     In (CreateSession (s_user s) sid (s_ttl s) (s_onetime s)) ops.
   Proof.
     revert s. induction ops as [|o ops IH] using rev_ind; intros s H; [discriminate H|].
     rewrite run_snoc in H. apply in_or_app.
-    set (st := run_gen C ccd (init C capacity) ops) in *.
+    set (st := run_gen C ccd rcp (init C capacity) ops) in *.
     destruct o; unfold step_gen, consume in H.
     9: { destruct (pass_check_frame st u p ev) as [_ [E2 _]].
          destruct (pass_check C st u p ev) as [st1 w]; cbn [fst] in *. rewrite E2 in H. left; apply IH; exact H. }
@@ -469,8 +510,71 @@ Section Proofs.
   Definition no_login_rehash (o : op) : Prop :=
     match o with LoginRehash _ _ _ _ _ => False | _ => True end.
 
-  (* the invariant of the in-flight re-hashes: whatever has happened to the user document since the login
-     read it, if its hash still has another cost than c then it still verifies the password presented *)
+  (* ---- the invariant of the in-flight re-hashes, both variants of the callback ----
+     document versions (CAS values) are fresh, so a pending re-hash whose CAS still matches the stored document
+     is looking at the very copy the callback was applied to: that copy has a hash of another cost and -- when
+     the callback compares the password (rcp = true, the repaired code) -- the hash verifies the password presented *)
+  Record Fresh (rcp : bool) (st : state) : Prop := {
+    fr_uver : forall u usr, alookup u (users st) = Some usr -> u_ver usr < next_uuid st;
+    fr_pver : forall a pd, alookup a (pending st) = Some pd -> p_ver pd < next_uuid st;
+    fr_pend : forall a pd usr, alookup a (pending st) = Some pd ->
+        alookup (p_user pd) (users st) = Some usr -> u_ver usr = p_ver pd ->
+        exists h, u_hash usr = Some h /\ cost C h <> p_cost pd /\ (rcp = true -> verify C h (p_pw pd) = true)
+  }.
+
+  Lemma Fresh_init rcp capacity : Fresh rcp (init C capacity).
+  Proof. split; cbn; intros; discriminate. Qed.
+
+  Lemma Fresh_step ccd rcp st o : Inv st -> Fresh rcp st -> Fresh rcp (fst (step_gen C ccd rcp st o)).
+  Proof.
+    intros I [F1 F2 F3].
+    assert (F1' : forall u usr, alookup u (users st) = Some usr -> u_ver usr < next_uuid st + 1)
+      by (intros u usr H; specialize (F1 _ _ H); lia).
+    assert (F2' : forall a pd, alookup a (pending st) = Some pd -> p_ver pd < next_uuid st + 1)
+      by (intros a pd H; specialize (F2 _ _ H); lia).
+    destruct o; unfold step_gen, consume.
+    9: { destruct (pass_check_frame st u p ev) as [E1 [_ [_ [E4 [E5 _]]]]].
+         destruct (pass_check C st u p ev) as [st1 w]; cbn [fst] in *. split; rewrite ?E1, ?E4, ?E5; eauto. }
+    9: { pose proof (pass_check_Inv st u p ev I) as I'.
+         destruct (pass_check_frame st u p ev) as [E1 [_ [_ [E4 [E5 _]]]]].
+         destruct (pass_check C st u p ev) as [st1 w]; cbn [fst snd] in *.
+         assert (B : Fresh rcp st1) by (split; rewrite ?E1, ?E4, ?E5; eauto).
+         destruct w as [w|]; [|exact B].
+         destruct (alookup u (users st)) as [usr|] eqn:Eu; [|exact B].
+         destruct (rehash_go C rcp st1 usr p c) eqn:Eg.
+         - apply (rehash_go_true rcp st1 usr p c I') in Eg. destruct Eg as [h [Eh [Hc [_ Hv]]]].
+           split; acc; rewrite ?E1, ?E4, ?E5; intros; look; repeat dm; inv_some; acc; keq; subst; eauto.
+           rewrite Eu in *; inv_some; eauto.
+         - split; acc; rewrite ?E1, ?E4, ?E5; eauto. }
+    9: { destruct (alookup a (pending st)) as [pd|] eqn:Ea; cbn [fst]; [|split; assumption].
+         destruct (alookup (p_user pd) (users st)) as [usr|] eqn:Eu; cbn [fst].
+         2: { split; acc; intros; look; repeat dm; inv_some; eauto. }
+         destruct (u_ver usr =? p_ver pd) eqn:Ev; cbn [fst].
+         - split; acc; intros; look; repeat dm; inv_some; acc; keq; subst; eauto; try lia.
+           all: match goal with
+                | Hp : alookup _ (pending _) = Some ?pd0, Hv : next_uuid _ = p_ver ?pd0 |- _ => specialize (F2 _ _ Hp); lia
+                end.
+         - destruct (rehash_go C rcp st usr (p_pw pd) (p_cost pd)) eqn:Eg; cbn [fst].
+           + apply (rehash_go_true rcp st usr _ _ I) in Eg. destruct Eg as [h [Eh [Hc [_ Hv]]]].
+             split; acc; intros; look; repeat dm; inv_some; acc; keq; subst; eauto.
+             rewrite Eu in *; inv_some; eauto.
+           + split; acc; intros; look; repeat dm; inv_some; eauto. }
+    all: repeat dm; cbn [fst]; try (split; assumption);
+      split; acc; intros; look; repeat dm; inv_some; acc; keq; subst; eauto; try lia.
+    all: match goal with
+         | Hp : alookup _ (pending _) = Some ?pd0, Hv : next_uuid _ = p_ver ?pd0 |- _ => specialize (F2 _ _ Hp); lia
+         end.
+  Qed.
+
+  Lemma Fresh_run ccd rcp ops : forall st, Inv st -> Fresh rcp st -> Fresh rcp (run_gen C ccd rcp st ops).
+  Proof.
+    induction ops as [|o ops IH]; intros st I F; [exact F|].
+    cbn [run_gen fold_left]. apply IH; auto using Inv_step, Fresh_step.
+  Qed.
+
+  (* ---- the invariant the UNREPAIRED callback needs (rcp = false: it re-checks the cost only): one configured
+     cost c at a time.  Whatever has happened to the user document since the login read it, if its hash still
+     has another cost than c then it still verifies the password presented ---- *)
   Record Good (c : N) (st : state) : Prop := {
     good_cost : forall a pd, alookup a (pending st) = Some pd -> p_cost pd = c;
     good_pw : forall a pd usr h, alookup a (pending st) = Some pd ->
@@ -481,7 +585,7 @@ Section Proofs.
   Lemma new_hash_cost p salt c h : new_hash C p salt c = Some h -> cost C h = c.
   Proof. unfold new_hash. dm; intros E; inv E. apply (cost_gen C OK). Qed.
 
-  Lemma Good_step ccd c st o : Inv st -> Good c st -> uniform c o -> Good c (fst (step_gen C ccd st o)).
+  Lemma Good_step ccd rcp c st o : Inv st -> Good c st -> uniform c o -> Good c (fst (step_gen C ccd rcp st o)).
   Proof.
     intros I [G1 G2] U.
     destruct o; unfold step_gen, consume; cbn [uniform] in U.
@@ -492,7 +596,7 @@ Section Proofs.
          destruct (pass_check C st u p ev) as [st1 w]; cbn [fst snd] in *.
          destruct w as [w|]; [|split; rewrite ?E1, ?E5; eauto].
          destruct (S w I eq_refl) as [_ [usr [Eu [_ [Hv _]]]]]. rewrite Eu.
-         destruct (wants_rehash C usr c0 && negb (too_long C p)) eqn:Ew; [|split; rewrite ?E1, ?E5; eauto].
+         destruct (rehash_go C rcp st1 usr p c0) eqn:Ew; [|split; acc; rewrite ?E1, ?E5; eauto].
          subst c0. split; acc; rewrite ?E1, ?E5; intros a0 pd; look; destruct (a0 =? a) eqn:Ea; keq.
          - intros E; inv E; reflexivity.
          - eauto.
@@ -506,8 +610,8 @@ Section Proofs.
           end.
   Qed.
 
-  Lemma pending_nil_step ccd st o :
-    pending st = [] -> no_login_rehash o -> pending (fst (step_gen C ccd st o)) = [].
+  Lemma pending_nil_step ccd rcp st o :
+    pending st = [] -> no_login_rehash o -> pending (fst (step_gen C ccd rcp st o)) = [].
   Proof.
     intros E NL. destruct o; unfold step_gen, consume; cbn [no_login_rehash] in NL; try contradiction.
     9: { destruct (pass_check_frame st u p ev) as [_ [_ [_ [_ [E5 _]]]]].
@@ -518,26 +622,60 @@ Section Proofs.
   Lemma Good_nil c st : pending st = [] -> Good c st.
   Proof. intros E. split; rewrite E; cbn; intros; discriminate. Qed.
 
-  Lemma pending_nil_run ccd ops : forall st,
-    pending st = [] -> Forall no_login_rehash ops -> pending (run_gen C ccd st ops) = [].
+  Lemma pending_nil_run ccd rcp ops : forall st,
+    pending st = [] -> Forall no_login_rehash ops -> pending (run_gen C ccd rcp st ops) = [].
   Proof.
     induction ops as [|o ops IH]; intros st E F; [exact E|]. inv F.
     cbn [run_gen fold_left]. apply IH; auto using pending_nil_step.
   Qed.
 
-  Lemma Good_run ccd c ops : forall st,
-    Inv st -> Good c st -> Forall (uniform c) ops -> Good c (run_gen C ccd st ops).
+  (* ---- both variants together: [Safe rcp c]; the single-cost condition is asked of the unrepaired variant only ---- *)
+  Definition Safe (rcp : bool) (c : N) (st : state) : Prop := Fresh rcp st /\ (rcp = true \/ Good c st).
+  Definition single_cost (rcp : bool) (c : N) (o : op) : Prop := rcp = false -> uniform c o.
+
+  Lemma Safe_step ccd rcp c st o :
+    Inv st -> Safe rcp c st -> single_cost rcp c o -> Safe rcp c (fst (step_gen C ccd rcp st o)).
   Proof.
-    induction ops as [|o ops IH]; intros st I G F; [exact G|]. inv F.
-    cbn [run_gen fold_left]. apply IH; auto using Inv_step, Good_step.
+    intros I [F G] U. split; [apply Fresh_step; assumption|].
+    destruct G as [G|G]; [left; exact G|]. destruct rcp; [left; reflexivity|].
+    right. apply Good_step; auto.
   Qed.
 
-  (* histories: anything without re-hashing logins (before the cost change), then anything at cost c *)
-  Lemma Good_reach ccd capacity c ops0 ops1 :
-    Forall no_login_rehash ops0 -> Forall (uniform c) ops1 ->
-    Good c (run_gen C ccd (run_gen C ccd (init C capacity) ops0) ops1).
+  Lemma Safe_run ccd rcp c ops : forall st,
+    Inv st -> Safe rcp c st -> Forall (single_cost rcp c) ops -> Safe rcp c (run_gen C ccd rcp st ops).
   Proof.
-    intros F0 F1. apply Good_run; [apply Inv_reach | apply Good_nil, pending_nil_run; auto | exact F1].
+    induction ops as [|o ops IH]; intros st I G F; [exact G|]. inv F.
+    cbn [run_gen fold_left]. apply IH; auto using Inv_step, Safe_step.
+  Qed.
+
+  Lemma single_cost_true c ops : Forall (single_cost true c) ops.
+  Proof. apply Forall_forall. intros o _ E. discriminate E. Qed.
+
+  (* the repaired code: every history *)
+  Lemma Safe_reach_repaired ccd capacity c ops : Safe true c (run_gen C ccd true (init C capacity) ops).
+  Proof.
+    apply Safe_run; [apply Inv_init | split; [apply Fresh_init | left; reflexivity] | apply single_cost_true].
+  Qed.
+
+  (* the unrepaired code: anything without re-hashing logins (before the cost change), then anything at cost c *)
+  Lemma Safe_reach_single_cost ccd rcp capacity c ops0 ops1 :
+    Forall no_login_rehash ops0 -> Forall (uniform c) ops1 ->
+    Safe rcp c (run_gen C ccd rcp (run_gen C ccd rcp (init C capacity) ops0) ops1).
+  Proof.
+    intros F0 F1. apply Safe_run.
+    - apply Inv_reach.
+    - split; [apply Fresh_run; [apply Inv_init | apply Fresh_init] | right; apply Good_nil, pending_nil_run; auto].
+    - eapply Forall_impl; [|exact F1]. intros o U _. exact U.
+  Qed.
+
+  (* what a successful CAS Save of a re-hash overwrites: a hash that verifies the password presented *)
+  Lemma write_verifies rcp c st a pd usr :
+    Safe rcp c st -> alookup a (pending st) = Some pd -> alookup (p_user pd) (users st) = Some usr ->
+    u_ver usr = p_ver pd -> exists h, u_hash usr = Some h /\ verify C h (p_pw pd) = true.
+  Proof.
+    intros [[_ _ F3] G] Ea Eu Ev. destruct (F3 _ _ _ Ea Eu Ev) as [h [Eh [Hc Hv]]].
+    exists h. split; [exact Eh|]. destruct G as [->|[G1 G2]]; [auto|].
+    apply (G2 a pd usr h); auto. rewrite <- (G1 _ _ Ea). exact Hc.
   Qed.
 
   Lemma verify_same_key h c s p x :
@@ -548,23 +686,35 @@ Section Proofs.
     apply eq_true_iff_eq. rewrite !(verify_key C OK). rewrite Hv. tauto.
   Qed.
 
+  (* the effect of RehashSave on users: nothing, or the successful write *)
+  Lemma rehash_save_users ccd rcp st a salt ev :
+    let st' := fst (step_gen C ccd rcp st (RehashSave a salt ev)) in
+    users st' = users st \/
+    exists pd usr, alookup a (pending st) = Some pd /\ alookup (p_user pd) (users st) = Some usr /\
+      u_ver usr = p_ver pd /\
+      users st' = aset (p_user pd) (mkUser (new_hash C (p_pw pd) salt (p_cost pd)) (u_disabled usr) (next_uuid st) (next_uuid st) (p_pw pd)) (users st).
+  Proof.
+    unfold step_gen.
+    destruct (alookup a (pending st)) as [pd|] eqn:Ea; cbn [fst]; [|auto].
+    destruct (alookup (p_user pd) (users st)) as [usr|] eqn:Eu; cbn [fst]; acc; [|auto].
+    destruct (u_ver usr =? p_ver pd) eqn:Ev; cbn [fst]; acc.
+    - right. exists pd, usr. keq. auto.
+    - destruct (rehash_go C rcp st usr (p_pw pd) (p_cost pd)); cbn [fst]; acc; auto.
+  Qed.
+
   (* a Save attempt of a re-hash never makes the stored credential accept a string it refused before,
      never touches the disabled flag, never creates or deletes a user ... *)
-  Lemma rehash_never_widens ccd c st a salt :
-    Inv st -> Good c st ->
-    let st' := fst (step_gen C ccd st (RehashSave a salt)) in
+  Lemma rehash_never_widens ccd rcp c st a salt ev :
+    Inv st -> Safe rcp c st ->
+    let st' := fst (step_gen C ccd rcp st (RehashSave a salt ev)) in
     forall u, (forall x, creds st' u x = true -> creds st u x = true) /\
               option_map u_disabled (alookup u (users st')) = option_map u_disabled (alookup u (users st)).
   Proof.
-    intros [_ _ _ I4] [G1 G2] st' u. subst st'. unfold step_gen.
-    destruct (alookup a (pending st)) as [pd|] eqn:Ea; cbn [fst]; [|auto].
-    destruct (alookup (p_user pd) (users st)) as [usr|] eqn:Eu; cbn [fst]; acc; [|auto].
-    destruct (u_ver usr =? p_ver pd); cbn [fst]; acc; [|auto].
-    destruct (wants_rehash C usr (p_cost pd)) eqn:Ew; cbn [fst]; acc; [|auto].
-    unfold creds; acc. look. destruct (u =? p_user pd) eqn:E; keq; [subst u|auto].
+    intros [_ _ _ I4] S st' u. subst st'.
+    destruct (rehash_save_users ccd rcp st a salt ev) as [E|[pd [usr [Ea [Eu [Ev E]]]]]]; unfold creds; rewrite E; [auto|].
+    look. destruct (u =? p_user pd) eqn:Eq; keq; [subst u|auto].
     rewrite Eu. acc. split; [|reflexivity].
-    unfold wants_rehash in Ew. destruct (u_hash usr) as [h|] eqn:Eh; [|discriminate Ew]. keq.
-    assert (Hv : verify C h (p_pw pd) = true) by (apply (G2 a pd usr h); auto; rewrite (G1 _ _ Ea) in Ew; exact Ew).
+    destruct (write_verifies rcp c st a pd usr S Ea Eu Ev) as [h [Eh Hv]]. rewrite Eh.
     intros x. unfold new_hash. destruct (p_pw pd =? 0) eqn:E0; keq.
     - intros Hx; keq. subst x. rewrite <- E0. exact Hv.
     - destruct (I4 _ _ Eu) as [[I4' _]|[c0 [s0 [I4' _]]]]; [congruence|]. rewrite Eh in I4'. inv I4'.
@@ -574,30 +724,26 @@ Section Proofs.
   (* ... and, when the password presented was not the empty string, leaves the accepted strings exactly as
      they were.  (With the empty string -- possible only for a password bcrypt cannot tell from "", e.g. a
      single NUL byte -- SetPassword("") stores no hash, and only "" is accepted afterwards.) *)
-  Lemma rehash_preserves ccd c st a salt :
-    Inv st -> Good c st ->
+  Lemma rehash_preserves ccd rcp c st a salt ev :
+    Inv st -> Safe rcp c st ->
     (forall pd, alookup a (pending st) = Some pd -> p_pw pd <> 0) ->
-    forall u x, creds (fst (step_gen C ccd st (RehashSave a salt))) u x = creds st u x.
+    forall u x, creds (fst (step_gen C ccd rcp st (RehashSave a salt ev))) u x = creds st u x.
   Proof.
-    intros [_ _ _ I4] [G1 G2] NE u x. unfold step_gen.
-    destruct (alookup a (pending st)) as [pd|] eqn:Ea; cbn [fst]; [|auto].
-    destruct (alookup (p_user pd) (users st)) as [usr|] eqn:Eu; cbn [fst]; acc; [|auto].
-    destruct (u_ver usr =? p_ver pd); cbn [fst]; acc; [|auto].
-    destruct (wants_rehash C usr (p_cost pd)) eqn:Ew; cbn [fst]; acc; [|auto].
-    unfold creds; acc. look. destruct (u =? p_user pd) eqn:E; keq; [subst u|auto].
+    intros [_ _ _ I4] S NE u x.
+    destruct (rehash_save_users ccd rcp st a salt ev) as [E|[pd [usr [Ea [Eu [Ev E]]]]]]; unfold creds; rewrite E; [auto|].
+    look. destruct (u =? p_user pd) eqn:Eq; keq; [subst u|auto].
     rewrite Eu. acc.
-    unfold wants_rehash in Ew. destruct (u_hash usr) as [h|] eqn:Eh; [|discriminate Ew]. keq.
-    assert (Hv : verify C h (p_pw pd) = true) by (apply (G2 a pd usr h); auto; rewrite (G1 _ _ Ea) in Ew; exact Ew).
-    unfold new_hash. specialize (NE _ eq_refl). apply N.eqb_neq in NE. rewrite NE.
+    destruct (write_verifies rcp c st a pd usr S Ea Eu Ev) as [h [Eh Hv]]. rewrite Eh.
+    unfold new_hash. specialize (NE _ Ea). apply N.eqb_neq in NE. rewrite NE.
     destruct (I4 _ _ Eu) as [[I4' _]|[c0 [s0 [I4' _]]]]; [congruence|]. rewrite Eh in I4'. inv I4'.
     apply verify_same_key; eauto.
   Qed.
 
   (* ---- the ghost "current password" follows the history ---- *)
-  Lemma password_set_recorded ccd st u p salt c o :
+  Lemma password_set_recorded ccd rcp st u p salt c o :
     o = CreateUser u p salt c \/ o = SetPassword u p salt c ->
-    snd (step_gen C ccd st o) = ODone ->
-    exists usr, alookup u (users (fst (step_gen C ccd st o))) = Some usr /\ u_pw usr = p.
+    snd (step_gen C ccd rcp st o) = ODone ->
+    exists usr, alookup u (users (fst (step_gen C ccd rcp st o))) = Some usr /\ u_pw usr = p.
   Proof.
     intros [ -> | -> ] H; unfold step_gen in *; repeat dm; cbn [snd] in H; try discriminate H;
       cbn [fst]; acc; look; rewrite N.eqb_refl; eexists; split; reflexivity.
@@ -608,13 +754,21 @@ Section Proofs.
 
   (* nobody but CreateUser / SetPassword of u moves u's credential out of its bcrypt class: a re-hash
      writes a password of the same class *)
-  Lemma password_frame ccd c st u o usr' :
-    Inv st -> Good c st -> ~ sets_password u o ->
-    alookup u (users (fst (step_gen C ccd st o))) = Some usr' ->
+  Lemma password_frame ccd rcp c st u o usr' :
+    Inv st -> Safe rcp c st -> ~ sets_password u o ->
+    alookup u (users (fst (step_gen C ccd rcp st o))) = Some usr' ->
     exists usr, alookup u (users st) = Some usr /\ bkey C (u_pw usr) = bkey C (u_pw usr').
   Proof.
-    intros [_ _ _ I4] [G1 G2] NS H.
-    destruct o; unfold step_gen, consume in H.
+    intros [_ _ _ I4] S NS H.
+    destruct o.
+    11: { (* RehashSave *)
+      destruct (rehash_save_users ccd rcp st a salt ev) as [E|[pd [usr [Ea [Eu [Ev E]]]]]]; rewrite E in H; [eauto|].
+      look. destruct (u =? p_user pd) eqn:Eq; keq; [subst u|eauto]. inv H. acc.
+      exists usr. split; [exact Eu|].
+      destruct (write_verifies rcp c st a pd usr S Ea Eu Ev) as [h [Eh Hv]].
+      destruct (I4 _ _ Eu) as [[I4' _]|[c0 [s0 [I4' _]]]]; [congruence|]. rewrite Eh in I4'. inv I4'.
+      apply (verify_key C OK) in Hv. exact Hv. }
+    all: unfold step_gen, consume in H.
     9: { destruct (pass_check_frame st u0 p ev) as [E1 _].
          destruct (pass_check C st u0 p ev) as [st1 w]; cbn [fst] in *. rewrite E1 in H. eauto. }
     9: { destruct (pass_check_frame st u0 p ev) as [E1 _].
@@ -622,57 +776,47 @@ Section Proofs.
          repeat dm; acc; rewrite E1 in H; eauto. }
     all: repeat dm; cbn [fst] in H; acc; look; repeat dm; inv_some; keq; subst;
       cbn [sets_password] in NS; try (exfalso; apply NS; reflexivity); eauto.
-    (* RehashSave wrote u *)
-    match goal with
-    | Ea : alookup _ (pending st) = Some ?pd, Eu : alookup (p_user ?pd) (users st) = Some ?usr,
-      Ew : wants_rehash C ?usr _ = true |- _ =>
-        exists usr; split; [exact Eu|]; acc;
-        unfold wants_rehash in Ew; destruct (u_hash usr) as [h|] eqn:Eh; [|discriminate Ew]; keq;
-        assert (Hv : verify C h (p_pw pd) = true) by (apply (G2 _ pd usr h Ea Eu Eh); rewrite (G1 _ _ Ea) in Ew; exact Ew);
-        destruct (I4 _ _ Eu) as [[I4' _]|[c0 [s0 [I4' _]]]]; [congruence|]; rewrite Eh in I4'; inv I4';
-        apply (verify_key C OK) in Hv; exact Hv
-    end.
   Qed.
 
   (* after a successful password set to p, and as long as nobody sets u's password again, every string of
      another bcrypt class is refused -- re-hashing logins and their Save attempts may be interleaved freely *)
-  Lemma wrong_password_rejected ccd c ops : forall st u p,
-    Inv st -> Good c st ->
+  Lemma wrong_password_rejected ccd rcp c ops : forall st u p,
+    Inv st -> Safe rcp c st ->
     (forall usr, alookup u (users st) = Some usr -> bkey C (u_pw usr) = bkey C p) ->
-    Forall (fun o => uniform c o /\ ~ sets_password u o) ops ->
+    Forall (fun o => single_cost rcp c o /\ ~ sets_password u o) ops ->
     forall o q, password_login o u q -> bkey C q <> bkey C p ->
-      authed (snd (step_gen C ccd (run_gen C ccd st ops) o)) = None.
+      authed (snd (step_gen C ccd rcp (run_gen C ccd rcp st ops) o)) = None.
   Proof.
     induction ops as [|o' ops IH]; intros st u p I G Hp NS o q PL Hq.
     - cbn [run_gen fold_left].
-      destruct (authed (snd (step_gen C ccd st o))) as [w|] eqn:E; [|reflexivity].
-      destruct (password_auth_sound ccd st o u q w I PL E) as [_ [usr [Eu [_ [_ Hpw]]]]].
+      destruct (authed (snd (step_gen C ccd rcp st o))) as [w|] eqn:E; [|reflexivity].
+      destruct (password_auth_sound ccd rcp st o u q w I PL E) as [_ [usr [Eu [_ [_ Hpw]]]]].
       specialize (Hp _ Eu). congruence.
-    - inv NS. destruct H1 as [U NSo]. cbn [run_gen fold_left]. apply (IH _ u p) with (q := q); auto using Inv_step, Good_step.
-      intros usr' Hu'. destruct (password_frame _ _ _ _ _ _ I G NSo Hu') as [usr [Eu Epw]].
+    - inv NS. destruct H1 as [U NSo]. cbn [run_gen fold_left]. apply (IH _ u p) with (q := q); auto using Inv_step, Safe_step.
+      intros usr' Hu'. destruct (password_frame _ _ _ _ _ _ _ I G NSo Hu') as [usr [Eu Epw]].
       rewrite <- Epw. auto.
   Qed.
 
-  Lemma killed_forever ccd st sid :
+  Lemma killed_forever ccd rcp st sid :
     Inv st -> dead st sid ->
     forall ops o, no_recreate sid ops -> presents o sid ->
-      authed (snd (step_gen C ccd (run_gen C ccd st ops) o)) = None.
+      authed (snd (step_gen C ccd rcp (run_gen C ccd rcp st ops) o)) = None.
   Proof.
-    intros I D ops o NR P. apply (dead_no_auth ccd _ sid); [|exact P]. apply dead_forever; assumption.
+    intros I D ops o NR P. apply (dead_no_auth ccd rcp _ sid); [|exact P]. apply dead_forever; assumption.
   Qed.
 
-  Lemma set_then_wrong_password_rejected ccd c st u p salt o :
-    Inv st -> Good c st -> o = CreateUser u p salt c \/ o = SetPassword u p salt c ->
-    snd (step_gen C ccd st o) = ODone ->
-    forall ops, Forall (fun o' => uniform c o' /\ ~ sets_password u o') ops ->
+  Lemma set_then_wrong_password_rejected ccd rcp c st u p salt c' o :
+    Inv st -> Safe rcp c st -> o = CreateUser u p salt c' \/ o = SetPassword u p salt c' ->
+    single_cost rcp c o ->
+    snd (step_gen C ccd rcp st o) = ODone ->
+    forall ops, Forall (fun o' => single_cost rcp c o' /\ ~ sets_password u o') ops ->
     plain C p = true ->
     forall o' q, password_login o' u q -> q <> p -> plain C q = true ->
-      authed (snd (step_gen C ccd (run_gen C ccd (fst (step_gen C ccd st o)) ops) o')) = None.
+      authed (snd (step_gen C ccd rcp (run_gen C ccd rcp (fst (step_gen C ccd rcp st o)) ops) o')) = None.
   Proof.
-    intros I G Ho Hd ops NS Pp o' q PL Hq Hl.
-    destruct (password_set_recorded ccd st u p salt c o Ho Hd) as [usr [Eu Epw]].
-    apply (wrong_password_rejected ccd c ops _ u p) with (q := q); auto using Inv_step.
-    - apply Good_step; auto. destruct Ho as [ -> | -> ]; reflexivity.
+    intros I G Ho U Hd ops NS Pp o' q PL Hq Hl.
+    destruct (password_set_recorded ccd rcp st u p salt c' o Ho Hd) as [usr [Eu Epw]].
+    apply (wrong_password_rejected ccd rcp c ops _ u p) with (q := q); auto using Inv_step, Safe_step.
     - intros usr' Eu'. congruence.
     - intros E. apply Hq. apply (bkey_plain C OK); auto.
   Qed.
